@@ -200,7 +200,7 @@ def gen_case(seed, prop, idx):
         g.hard = True
     elif prop == "C15":
         case["mode"] = ["r+", "r+", "r", "a", "w+"][idx % 5]
-    if prop in ("C13", "C15", "C16") and idx % 3 == 1:
+    if (prop in ("C13", "C15", "C16") and idx % 3 == 1) or (prop == "C12" and idx % 4 == 1):
         case["flush"] = False         # rows may sit in the handle's buffer: a rewrite must still flush what it swaps in
     if prop in ("C12", "C13", "C04") and idx % 5 == 3:
         case["symlink"] = True
@@ -500,6 +500,8 @@ def analyse_case(case, prop, tier, root):
         cand.sort(key=lambda i: len(recs[i]["trace"]) <= 1000)       # an operation with thousands of calls first
         if case.get("huge"):
             cand = [i for i in cand if recs[i]["name"] != "ins"]     # the trials go to the removal over the huge file
+        if prop == "C12" and not case.get("flush", True):
+            cand = [i for i in cand if "replace" in recs[i]["trace"]]    # under buffered inserts only rewrites are atomic
 
         def boundaries(n):
             """every boundary of an ordinary operation; a spread of them for one with thousands of calls"""
@@ -518,6 +520,42 @@ def analyse_case(case, prop, tier, root):
             # raw (uncanonicalised) boundaries: every recorded call, reads included
             if prop == "C12":
                 if not case.get("flush", True):
+                    # rows appended under flush_on_insert=False may still sit in a user-space buffer, so a death may lose a
+                    # tail of the *old* contents — but a rewrite is atomic all the same: the temporary file is flushed and
+                    # synced before it replaces the database file. Death before the replace: a prefix of the old rows;
+                    # death after it: exactly the new contents.
+                    if "replace" not in rec["trace"]:
+                        continue
+                    R0 = IORunner(case, root)
+                    try:
+                        for op in case["ops"][:i]:
+                            R0.op(op)
+                        IO.CTL.reset()
+                        R0.r.line(case["ops"][i])
+                        raw = list(IO.CTL.log)
+                    finally:
+                        R0.close()
+                        R0.cleanup()
+                    at = next((j for j, ev in enumerate(raw) if ev[0] == "replace"), None)
+                    if at is None:
+                        continue
+                    for k in range(max(0, at - 3), len(raw) + 2):
+                        code, dec = crash_trial(case, i, k, root)
+                        stats["crash_trials"] += 1
+                        if dec and isinstance(dec[0], str) and dec[0].startswith(("UNREADABLE", "NOFILE")):
+                            ok = False
+                        elif k <= at:
+                            ok = dec == old[:len(dec)] or dec == new
+                        else:
+                            ok = dec == new
+                        if not ok:
+                            extra.append(("impl-vs-spec", ["C12"], i,
+                                          f"flush_on_insert=False: process death at I/O boundary {k} of `{V.sx(rec['op'])[:120]}` (the file is "
+                                          f"replaced at call {at}) leaves a file that decodes to {dec} — old contents {old}, new {new}",
+                                          dict(boundary=k, replace_at=at)))
+                            break
+                        if code == 0:
+                            break
                     continue
                 for k in boundaries(n):
                     code, dec = crash_trial(case, i, k, root)
